@@ -480,7 +480,7 @@ pub fn c01(_tier: Tier) -> Property {
                 let obs = sim::run(s);
                 judge_c01(s, &obs)
             }),
-        }), systematic_part(judge_c01), crate::fuzzops::corpus_part("fuzz_corpus", "fz_sim", "C01", crate::fuzzops::sim_target)],
+        }), systematic_part(judge_c01), long_sessions_part(judge_c01), crate::fuzzops::corpus_part("fuzz_corpus", "fz_sim", "C01", crate::fuzzops::sim_target)],
         assumptions: vec![
             "schedules are those of a current-thread tokio runtime with a paused clock and seeded select! (tokio channels and timers trusted)",
             "the simulated MPD answers each token from the case's reply table",
@@ -502,10 +502,26 @@ pub fn c04(_tier: Tier) -> Property {
                 let obs = sim::run(s);
                 judge_c04(s, &obs)
             }),
-        }), systematic_part(judge_c04), slow_consumer_part(), crate::fuzzops::corpus_part("fuzz_corpus", "fz_sim", "C04", crate::fuzzops::sim_target)],
+        }), systematic_part(judge_c04), slow_consumer_part(), long_sessions_part(judge_c04), crate::fuzzops::corpus_part("fuzz_corpus", "fz_sim", "C04", crate::fuzzops::sim_target)],
         assumptions: vec!["as C01", "pending changes are reported by the simulated server at the next idle, duplicates merged (as MPD's idle flags)"],
         selftest: None,
     }
+}
+
+/// Long-lived connections (hundreds of requests and notifications on one connection).
+pub fn long_sessions_part(judge: fn(&Script, &Observation) -> CaseResult) -> Box<dyn crate::core::Part> {
+    Box::new(RandomPart {
+        name: "long_sessions",
+        rule: "proptest: one connection that receives a reply with 0/100/257/300/600/1100 distinct, fresh field names every 20 blocks and lives through 30-160 blocks back to back (mostly the noidle/changed race scenario: hold, change, issue, partial release; also plain steps and slow replies), any segmentation, greeting version, vectored or plain writes; same judge as the part 'histories'. non-trivial as there",
+        cases: (400, 30_000),
+        strategy: Box::new(|_t| simgen::long_session_script().boxed()),
+        check: Box::new(move |s: &Script| {
+            let obs = sim::run(s);
+            let mut r = judge(s, &obs);
+            r.class_if(obs.requests.len() >= 128, "session_with_128plus_requests");
+            r
+        }),
+    })
 }
 
 /// C05 under faults: whatever goes wrong, what the client has written is a prefix of a legal session.
@@ -561,7 +577,7 @@ pub fn c05(_tier: Tier) -> Property {
                 let obs = sim::run(s);
                 judge_c05(s, &obs)
             }),
-        }), systematic_part(judge_c05), legal_under_faults_part(), crate::fuzzops::corpus_part("fuzz_corpus", "fz_sim", "C05", crate::fuzzops::sim_target)],
+        }), systematic_part(judge_c05), legal_under_faults_part(), long_sessions_part(judge_c05), crate::fuzzops::corpus_part("fuzz_corpus", "fz_sim", "C05", crate::fuzzops::sim_target)],
         assumptions: vec!["the server model implements MPD's idle rules (client/Process.cxx, client/Idle.cxx): noidle outside idle is ignored without reply, anything but noidle during idle is a protocol violation"],
         selftest: None,
     }
